@@ -10,7 +10,16 @@ use crate::gen::dict::DictParams;
 use crate::props::common::{build_case_dict, tok_case, TokCase, TokCaseParams};
 use crate::props::dictops::write_image;
 
-pub const MAGIC: &[u8] = b"VibratoTokenizer 0.5\n";
+/// Magic of the pinned format; the checks use `magic_of(image)` (the first line of a freshly
+/// written image) so that a version bump by the maintainers is not reported as a violation.
+pub const PINNED_MAGIC: &[u8] = b"VibratoTokenizer 0.5\n";
+
+pub fn magic_of(image: &[u8]) -> &[u8] {
+    match image.iter().position(|&b| b == b'\n') {
+        Some(p) if p < 64 => &image[..=p],
+        _ => &image[..PINNED_MAGIC.len().min(image.len())],
+    }
+}
 
 #[derive(Clone, Debug, Serialize, Deserialize, PartialEq, Eq, Hash)]
 pub enum Fault {
@@ -52,6 +61,7 @@ pub fn image_of(base: &TokCase) -> Result<Vec<u8>, String> {
 }
 
 pub fn faulty_stream(image: &[u8], f: &Fault) -> Option<Vec<u8>> {
+    let magic = magic_of(image);
     Some(match f {
         Fault::Cut(n) => {
             if *n >= image.len() {
@@ -60,7 +70,7 @@ pub fn faulty_stream(image: &[u8], f: &Fault) -> Option<Vec<u8>> {
             image[..*n].to_vec()
         }
         Fault::MagicByte(pos, b) => {
-            if *pos >= MAGIC.len() || image[*pos] == *b {
+            if *pos >= magic.len() || image[*pos] == *b {
                 return None;
             }
             let mut v = image.to_vec();
@@ -70,15 +80,15 @@ pub fn faulty_stream(image: &[u8], f: &Fault) -> Option<Vec<u8>> {
         Fault::Header(h) => {
             // a header that starts with the current magic leaves a stream with a corrupted
             // body, which is outside the property's claim
-            if h.starts_with(MAGIC) {
+            if h.starts_with(magic) {
                 return None;
             }
             let mut v = h.clone();
-            v.extend_from_slice(&image[MAGIC.len()..]);
+            v.extend_from_slice(&image[magic.len()..]);
             v
         }
         Fault::Stream(s) => {
-            if s.starts_with(MAGIC) {
+            if s.starts_with(magic) {
                 return None;
             }
             s.clone()
@@ -196,6 +206,8 @@ fn enumerate(opts: &Opts, rep: &mut Report, n_images: u32, n_full: u32) {
                 if base.mapping.is_some() { "+mapped" } else { "" }
             ))
             .or_insert(0u32) += 1;
+        let magic = magic_of(&image).to_vec();
+        let magic = &magic[..];
         let len = image.len();
         let full = full_images < n_full && len <= 400_000;
         // boundary-focused offsets for the non-exhaustive images: everything outside the
@@ -231,7 +243,7 @@ fn enumerate(opts: &Opts, rep: &mut Report, n_images: u32, n_full: u32) {
             }
         });
         total_reads += reads.load(Ordering::Relaxed);
-        nontrivial += reads.load(Ordering::Relaxed).saturating_sub(MAGIC.len() as u64);
+        nontrivial += reads.load(Ordering::Relaxed).saturating_sub(magic.len() as u64);
         if full {
             full_images += 1;
         }
@@ -250,9 +262,9 @@ fn enumerate(opts: &Opts, rep: &mut Report, n_images: u32, n_full: u32) {
         }
         // every single-byte substitution of the magic (21 x 255), full body kept
         let mut mfail = None;
-        'm: for pos in 0..MAGIC.len() {
+        'm: for pos in 0..magic.len() {
             for b in 0..=255u8 {
-                if b == MAGIC[pos] {
+                if b == magic[pos] {
                     continue;
                 }
                 let mut v = image.clone();
